@@ -80,7 +80,11 @@ type tablesCase struct {
 	// OffsetShift (variant "api" on a co64 track only) is added to every chunk offset of the rebuilt co64 box
 	// and of the reference, so that offsets beyond 32 bits are queried; the data copies are left out then
 	OffsetShift uint64 `json:"offsetShift,omitempty"`
-	NoAvoid     bool   `json:"noAvoid,omitempty"` // ignore avoidKnown (reproducers of known findings)
+	// SizeScale > 1 (variant "api" on a co64 track only): every sample size and every chunk offset of the rebuilt
+	// tables and of the reference is multiplied by it (the layout stays consistent: chunks and gaps grow alike), so
+	// that sizes near 2^31 and sums of sizes and offsets far beyond 2^32 are queried; the data copies are left out
+	SizeScale uint64 `json:"sizeScale,omitempty"`
+	NoAvoid   bool   `json:"noAvoid,omitempty"` // ignore avoidKnown (reproducers of known findings)
 }
 
 type stats struct {
@@ -230,6 +234,31 @@ func evalTables(c *tablesCase, st *stats) *harness.Fail {
 		pos[nr] = len(all)
 	}
 	nc := x.NrChunks()
+	if c.SizeScale > 1 {
+		if c.Variant != "api" || !tb.Co64 || c.SizeScale > 1<<25 {
+			return harness.Failf("harness|c09|bad-case", "size scale %d needs variant api and a co64 track", c.SizeScale)
+		}
+		scaled := *tb
+		scaled.ChunkOffsets = make([]uint64, len(tb.ChunkOffsets))
+		for i, o := range tb.ChunkOffsets {
+			scaled.ChunkOffsets[i] = o * c.SizeScale
+		}
+		scaled.Sizes = make([]uint32, len(tb.Sizes))
+		for i, z := range tb.Sizes {
+			if uint64(z)*c.SizeScale > 0xffffffff {
+				return harness.Failf("harness|c09|bad-case", "size %d x %d does not fit 32 bits", z, c.SizeScale)
+			}
+			scaled.Sizes[i] = uint32(uint64(z) * c.SizeScale)
+		}
+		if uint64(tb.UniformSize)*c.SizeScale > 0xffffffff {
+			return harness.Failf("harness|c09|bad-case", "uniform size %d x %d does not fit 32 bits", tb.UniformSize, c.SizeScale)
+		}
+		scaled.UniformSize = uint32(uint64(tb.UniformSize) * c.SizeScale)
+		tb = &scaled
+		if x, err = tb.Expand(); err != nil {
+			return harness.Failf("harness|c09|reference-parse", "scaled tables: %v", err)
+		}
+	}
 	if c.OffsetShift != 0 {
 		if c.Variant != "api" || !tb.Co64 || c.OffsetShift > 1<<62 {
 			return harness.Failf("harness|c09|bad-case", "offset shift %d needs variant api and a co64 track", c.OffsetShift)
@@ -537,9 +566,9 @@ func evalTables(c *tablesCase, st *stats) *harness.Fail {
 				}
 			}
 		}
-		if c.OffsetShift != 0 {
+		if c.OffsetShift != 0 || c.SizeScale > 1 {
 			*q -= 2
-			return nil // the shifted offsets point outside the file: no data copies
+			return nil // the shifted / scaled offsets point outside the file: no data copies
 		}
 		// sample data: in-memory mdat, lazy mdat without and with work space
 		wantBytes := all[pos[a-1]:pos[b]]
@@ -609,7 +638,7 @@ func evalTables(c *tablesCase, st *stats) *harness.Fail {
 		{"TrakBox.GetRangesForSampleInterval", 1, u + 1, func(a, b uint32) error { _, err := trak.GetRangesForSampleInterval(a, b); return err }},
 	}
 	wrongMdat := truth.MdatPayloadSize == 0 && f.Mdat.PayloadAbsoluteOffset() != truth.MdatPayloadStart && c.avoid(st, "copysampledata-all-mdat-empty-wrong-box")
-	if c.OffsetShift == 0 && !wrongMdat {
+	if c.OffsetShift == 0 && c.SizeScale <= 1 && !wrongMdat {
 		errqs = append(errqs,
 			errq{"File.CopySampleData", 0, u, func(a, b uint32) error { return f.CopySampleData(sink, nil, trak, a, b, nil) }},
 			errq{"File.CopySampleData", 1, u + 1, func(a, b uint32) error { return f.CopySampleData(sink, nil, trak, a, b, nil) }},
@@ -676,6 +705,10 @@ func genCase(t *rapid.T, variant string) tablesCase {
 	// co64 offsets beyond 32 bits (only the rebuilt tables can have them: the file is small)
 	if variant == "api" && c.Layout.Tracks[c.TrackIndex].Co64 && rapid.IntRange(0, 2).Draw(t, "offsetShift") == 0 {
 		c.OffsetShift = 1 << 33
+	}
+	// sample sizes near 2^31 and sums far beyond 2^32, same restriction
+	if variant == "api" && c.Layout.Tracks[c.TrackIndex].Co64 && rapid.IntRange(0, 2).Draw(t, "sizeScale") == 0 {
+		c.SizeScale = rapid.SampledFrom([]uint64{1 << 20, 1 << 24, 1 << 25, 3<<23 + 1}).Draw(t, "sizeScaleValue")
 	}
 	n := len(tracks[c.TrackIndex].Samples)
 	if n > allIntervalsMax {
@@ -774,6 +807,7 @@ func classify(c *tablesCase) (nontrivial bool, classes []string) {
 	add(emptyChunk, "zero-size-chunk", "")
 	add(len(tr.Samples[n-1].Data) == 0, "zero-size-last-sample", "")
 	add(c.OffsetShift != 0, "co64-offsets-beyond-32-bits", "")
+	add(c.SizeScale > 1, "sample-sizes-scaled-sums-beyond-32-bits", "")
 	add(c.Layout.MdatFirst, "mdat-first", "moov-first")
 	add(c.Layout.MdatLarge, "mdat-largesize", "")
 	add(c.Layout.GapBytes != nil, "gaps-between-chunks", "")
